@@ -58,6 +58,12 @@ type c18ServerObs struct {
 	done          chan struct{}
 }
 
+func (o *c18ServerObs) called() bool {
+	o.mu.Lock()
+	defer o.mu.Unlock()
+	return o.Calls > 0
+}
+
 type c18InfoObs struct {
 	Code   int
 	Header http.Header
@@ -149,9 +155,9 @@ func (h *c18Handler) ServeHTTP(w http.ResponseWriter, r *http.Request) {
 	h.run(w, r, ex, o)
 }
 
+// run executes the script.  It writes the observation without holding o.mu (a goroutine blocked on a mutex
+// is not durably blocked: virtual time would stop); readers wait for o.done first.
 func (h *c18Handler) run(w http.ResponseWriter, r *http.Request, ex *c18Exchange, o *c18ServerObs) {
-	o.mu.Lock()
-	defer o.mu.Unlock()
 	o.Method, o.RequestURI, o.Path, o.RawQuery, o.Host, o.Proto = r.Method, r.RequestURI, r.URL.Path, r.URL.RawQuery, r.Host, r.Proto
 	o.Header = r.Header.Clone()
 	o.ContentLength = r.ContentLength
@@ -455,23 +461,32 @@ func c18DoExchange(ctx context.Context, rt http.RoundTripper, ex *c18Exchange) *
 func c18Compare(ex *c18Exchange, disableCompression bool, so *c18ServerObs, co *c18ClientObs) []c18Viol {
 	var vs []c18Viol
 	v := func(sig, format string, a ...any) { vs = append(vs, c18Viol{"C18|" + sig, fmt.Sprintf(format, a...)}) }
-	so.mu.Lock()
-	defer so.mu.Unlock()
 	reqMismatch, respMismatch := ex.ReqCLDelta != 0, ex.RespCLDelta != 0
+	so.mu.Lock()
+	calls := so.Calls
+	so.mu.Unlock()
+	if calls > 0 {
+		select {
+		case <-so.done:
+		default: // still running (it started after the client had given up): its observation cannot be read
+			v("server|handler-did-not-return", "client: err=%q read error=%q", co.Err, co.ReadErr)
+			return vs
+		}
+	}
 
 	// ---- what the handler saw
 	if so.Panic != "" {
 		v("server|panic-in-handler-goroutine", "%s", so.Panic)
 	}
 	switch {
-	case so.Calls == 0:
+	case calls == 0:
 		if !reqMismatch {
 			v("server|handler-not-invoked", "client: err=%q status=%d", co.Err, co.Status)
 		}
-	case so.Calls > 1:
-		v("server|handler-invoked-twice", "%d calls", so.Calls)
+	case calls > 1:
+		v("server|handler-invoked-twice", "%d calls", calls)
 	}
-	if so.Calls >= 1 {
+	if calls >= 1 {
 		if so.Method != ex.Method {
 			v("request|method", "handler saw %q, client sent %q", so.Method, ex.Method)
 		}
@@ -545,7 +560,7 @@ func c18Compare(ex *c18Exchange, disableCompression bool, so *c18ServerObs, co *
 		}
 		return vs
 	}
-	if so.Calls == 0 {
+	if calls == 0 {
 		return vs
 	}
 	if co.Status != ex.Status {
@@ -565,7 +580,9 @@ func c18Compare(ex *c18Exchange, disableCompression bool, so *c18ServerObs, co *
 				continue
 			}
 			want := so.InfoSnaps[i].Clone()
-			ign := map[string]bool{"Trailer": true, "Date": true, "Content-Length": true}
+			// fields meant for the final response that the handler had already set travel in the 1xx block too; the
+			// client may strip the ones it interprets itself (Trailer, Content-Encoding, Content-Length)
+			ign := map[string]bool{"Trailer": true, "Date": true, "Content-Length": true, "Content-Encoding": true}
 			for _, kv := range ex.DeclTrailers {
 				ign[http.CanonicalHeaderKey(kv.K)] = true
 			}
@@ -808,7 +825,9 @@ func c18RunConn(cs *c18ConnCase) *c18ConnResult {
 		go func() { serveDone <- srv.ServeListener(w.Listener) }()
 	}
 	tr := &http3.Transport{DisableCompression: cs.DisableCompression, Logger: lg,
-		Dial: func(ctx context.Context, _ string, _ *tls.Config, _ *quic.Config) (*quic.Conn, error) { return w.Dial(ctx) }}
+		Dial: func(ctx context.Context, _ string, _ *tls.Config, _ *quic.Config) (*quic.Conn, error) {
+			return w.Dial(ctx)
+		}}
 	var rt http.RoundTripper = tr
 	var rawConn *quic.Conn
 	if cs.UseClientConn {
@@ -837,10 +856,7 @@ func c18RunConn(cs *c18ConnCase) *c18ConnResult {
 				go func() {
 					defer wg.Done()
 					co := c18DoExchange(ctx, rt, ex)
-					so.mu.Lock()
-					called := so.Calls > 0
-					so.mu.Unlock()
-					if called {
+					if so.called() {
 						select {
 						case <-so.done:
 						case <-time.After(120 * time.Second):
